@@ -339,6 +339,11 @@ func (bucket *Bucket) dropCollection(name sgbucket.DataStoreNameImpl) error {
 		c.close()
 		delete(bucket.collections, name)
 	}
+	// The collection's feeds may have been started through other handles, while this handle never opened it:
+	for _, feed := range bucket.collectionFeeds[name] {
+		feed.close()
+	}
+	delete(bucket.collectionFeeds, name)
 
 	_, err := bucket._db().Exec(`DELETE FROM collections WHERE scope=? AND name=?`, name.ScopeName(), name.CollectionName())
 	if err != nil {
